@@ -66,6 +66,54 @@ def lit(t):
     return rd(t, "value") if type(t).__name__ == "Literal" else None
 
 
+def pt(t) -> dict:
+    """Project a model term to the shapes ModelExport.tla composes signatures from (anything else is a printed leaf)."""
+    cls = type(t).__name__
+    def is_list(x):
+        return type(x).__name__ == "List"
+    if cls == "Splice":
+        return {"k": "ty", "s": "splice:" + repr(rd(t, "seq"))}
+    if cls == "Apply":
+        sym, args = rd(t, "symbol"), list(rd(t, "args"))
+        if sym == "core.fn" and len(args) == 2 and all(is_list(a) for a in args):
+            return {"k": "fn", "ins": [pt(x) for x in rd(args[0], "parts")], "outs": [pt(x) for x in rd(args[1], "parts")]}
+        if sym == "core.ctrl" and len(args) == 1 and is_list(args[0]):
+            return {"k": "ctrl", "row": [pt(x) for x in rd(args[0], "parts")]}
+        if sym == "core.adt" and len(args) == 1 and is_list(args[0]) and all(is_list(r) for r in rd(args[0], "parts")):
+            return {"k": "adt", "rows": [[pt(x) for x in rd(r, "parts")] for r in rd(args[0], "parts")]}
+    return {"k": "ty", "s": repr(t)}
+
+
+def node_rows(nd: dict) -> dict:
+    """The row-valued fields of one wire node, every type decoded and translated to a term ON ITS OWN (no signature is composed here)."""
+    from ..wire import dec_type
+    def row(ws):
+        return [pt(dec_type(w).to_model()) for w in ws]
+    out = {"a": [], "b": [], "c": [], "rows": []}
+    op = nd.get("op")
+    if op in ("DFG", "CFG", "Extension", "CallIndirect", "Case"):
+        out["a"], out["b"] = row(nd["signature"]["input"]), row(nd["signature"]["output"])
+    elif op in ("Call", "LoadFunction"):
+        out["a"], out["b"] = row(nd["instantiation"]["input"]), row(nd["instantiation"]["output"])
+    elif op in ("FuncDefn", "FuncDecl"):
+        out["a"], out["b"] = row(nd["signature"]["body"]["input"]), row(nd["signature"]["body"]["output"])
+    elif op == "LoadConstant":
+        out["b"] = row([nd["datatype"]])
+    elif op == "Conditional":
+        out["rows"], out["a"], out["b"] = [row(r) for r in nd["sum_rows"]], row(nd["other_inputs"]), row(nd["outputs"])
+    elif op == "TailLoop":
+        out["a"], out["b"], out["c"] = row(nd["just_inputs"]), row(nd["just_outputs"]), row(nd["rest"])
+    elif op == "DataflowBlock":
+        out["a"], out["rows"], out["c"] = row(nd["inputs"]), [row(r) for r in nd["sum_rows"]], row(nd["other_outputs"])
+    elif op == "Tag":
+        out["rows"] = [row(r) for r in nd["variants"]]
+    elif op in ("Input", "Output"):
+        out["a"] = row(nd["types"])
+    elif op == "ExitBlock":
+        out["a"] = row(nd["cfg_outputs"])
+    return out
+
+
 def proj_region(r) -> dict:
     hints = []
     for t in rd(r, "meta"):
@@ -74,7 +122,7 @@ def proj_region(r) -> dict:
             hints.append([lit(a), lit(b)])
     kind = rd(r, "kind")
     return {"kind": getattr(kind, "name", str(kind)), "sources": list(rd(r, "sources")), "targets": list(rd(r, "targets")),
-            "children": [proj_node(n) for n in rd(r, "children")], "hints": hints}
+            "children": [proj_node(n) for n in rd(r, "children")], "hints": hints, "sig": pt(rd(r, "signature"))}
 
 
 def proj_node(n) -> dict:
@@ -123,8 +171,8 @@ def proj_node(n) -> dict:
                 except Exception:  # noqa: BLE001
                     vj = f"<not json: {lit(a[1])!r}>"
                 metakeys.append(f"{lit(a[0])}={vj}")
-    rd(n, "signature")
-    return {"op": cls, "sym": sym, "callee": callee, "inputs": list(rd(n, "inputs")), "outputs": list(rd(n, "outputs")),
+    symsig = pt(rd(rd(op, "symbol"), "signature")) if cls in ("DefineFunc", "DeclareFunc") else {"k": "ty", "s": ""}
+    return {"sig": pt(rd(n, "signature")), "symsig": symsig, "op": cls, "sym": sym, "callee": callee, "inputs": list(rd(n, "inputs")), "outputs": list(rd(n, "outputs")),
             "regions": [proj_region(r) for r in rd(n, "regions")], "key": key, "metakeys": metakeys, "nparams": nparams, "nonlinear": nonlinear, "constterm": constterm}
 
 
@@ -134,6 +182,7 @@ def pair(name, h) -> dict:
     md = d.get("metadata") or []
     out["metakeys"] = [sorted(f"{kk}={json.dumps(vv, sort_keys=True)}" for kk, vv in (md[k] or {}).items()) if k < len(md) else [] for k in range(len(d["nodes"]))]
     out["exp"] = proj_region(rd(h.to_model(), "root"))
+    out["rows"] = [node_rows(nd) for nd in d["nodes"]]
     # the value every LoadConstant must inline: the value object of the Const it is linked to, exported on its own (value export does
     # not go through the node exporter). Document indices are matched with the HUGR's nodes by walking both hierarchies in parallel.
     from hugr import ops
@@ -241,7 +290,7 @@ def run(ctx: Ctx) -> None:
             if fn is None:
                 continue
             q = copy.deepcopy(p)
-            q["name"] = p["name"] + "|drop-port|RegionsMirrorHierarchy/PortsAreValuePorts/MetadataCarried/SymbolParams/ConstInlined"
+            q["name"] = p["name"] + "|drop-port|RegionsMirrorHierarchy/PortsAreValuePorts/MetadataCarried/SymbolParams/ConstInlined/Signatures"
             tgt = next(c for c in q["exp"]["children"] if c["op"] == "DefineFunc" and c["regions"] and c["regions"][0]["children"])
             ch = tgt["regions"][0]["children"][0]
             if ch["outputs"]:
